@@ -137,7 +137,10 @@ def violates_roundtrip(vp, pcm, pic):
 def violates_compare(vp, pcm, pic, rng):
     dims = dims_of(vp, pcm)
     q, counts = perturb(rng, pic, dims)
-    code, got, back, out = real_compare(pic, (vp, pcm), q, (vp, pcm))
+    try:
+        code, got, back, out = real_compare(pic, (vp, pcm), q, (vp, pcm))
+    except Exception as e:  # noqa  - the comparison of two well-formed pictures of depth <= 64 must give a verdict
+        return "compare_pictures raised %s: %s (truly differing pixel counts %s)" % (type(e).__name__, str(e)[:120], counts), q
     want = 0 if sum(counts) == 0 else 4
     if code != want or (code == 4 and got != counts):
         return "compare_pictures -> exit %s counts %s; truly differing pixel counts %s\n%s" % (code, got, counts, out), q
@@ -212,7 +215,14 @@ class Prop(object):
             elif c < 0.16:
                 q["pic_num"] = (pic["pic_num"] + 1) % 2 ** 32
                 flags[2] = 0
-            code, got, back, out = real_compare(pic, (vp, pcm), q, tuple(meta_b))
+            try:
+                code, got, back, out = real_compare(pic, (vp, pcm), q, tuple(meta_b))
+            except Exception as e:  # noqa
+                if not getattr(self, "_bad", None):
+                    self._bad = {"kind": "compare", "video_parameters": {k: int(v) for k, v in vp.items()}, "pcm": int(pcm), "picture": pic, "other": q,
+                                 "why": "compare_pictures raised %s: %s" % (type(e).__name__, str(e)[:120])}
+                ctx.count("ff:compare:raised")
+                continue
             planes = " ; ".join("%s / %s" % (" ".join(str(v) for row in pic[cn] for v in row),
                                              " ".join(str(v) for row in q[cn] for v in row)) for cn in dims)
             cl.append("ff C %d %d %d | %s" % (flags[0], flags[1], flags[2], planes))
@@ -228,7 +238,7 @@ class Prop(object):
 
     def search(self, ctx):
         rng = ctx.rng("search")
-        for i in range(ctx.n(600, 8000)):
+        for i in range(ctx.n(1200, 10000)):
             vp, pcm = rand_format(rng, True)
             dims = dims_of(vp, pcm)
             pic = rand_picture(rng, dims)
@@ -261,7 +271,11 @@ class Prop(object):
             why = violates_roundtrip(vp, pcm, fi["picture"])
         else:
             dims = dims_of(vp, pcm)
-            code, got, back, out = real_compare(fi["picture"], (vp, pcm), fi["other"], (vp, pcm))
+            try:
+                code, got, back, out = real_compare(fi["picture"], (vp, pcm), fi["other"], (vp, pcm))
+            except Exception as e:  # noqa
+                print("replay -> compare_pictures raised %s" % type(e).__name__)
+                return 1
             counts = [sum(1 for ra, rb in zip(fi["picture"][c], fi["other"][c]) for a, b in zip(ra, rb) if a != b) for c in dims]
             want = 0 if sum(counts) == 0 else 4
             why = None if (code == want and (code != 4 or got == counts)) else "compare_pictures -> %s %s, truth %s" % (code, got, counts)
